@@ -157,6 +157,7 @@ def aworldWith (methods : Fn → List AV → M AV) : World M AV where
   int := .int
   str := .str
   list := .tuple
+  newList vs := pure (.tuple vs)
   tuple := .tuple
   global := aGlobal
   truthy := aTruthy
